@@ -200,4 +200,23 @@ def encodeFields (skip : Nat) (bs : List UInt8) : List (Nat × Nat) := encRunF s
 def decodeBits (skip : Nat) (bits : List Bool) (n : Nat) : Option (List UInt8) :=
   decRun skip (initTrees skip) 0 bits n
 
+/-- number of bits of the code `HCIcskphuff_encode` writes for `plain`: the sum of the `count` arguments of its `Hbitwrite` calls -/
+def codeBits (t : Tree) (plain : Nat) : Nat := ((encFields t plain).map (·.1)).sum
+
+/-- number of `Hbitwrite` calls made for `plain` = number of non-empty words of the bit stack (`output_bits[]`/`bit_count[]`):
+    1 up to 32 bits, 2 up to 64, 3 up to 96, ... -/
+def codeWords (t : Tree) (plain : Nat) : Nat := (encFields t plain).length
+
+/-- the `while (length > 0)` loop of `HCIcskphuff_encode` once more, keeping only
+    (longest code in bits, most stack words used by one code, total number of bits written) -/
+def lensRun (skip : Nat) : List Tree → Nat → List UInt8 → Nat × Nat × Nat → Nat × Nat × Nat
+  | _, _, [], acc => acc
+  | ts, pos, b :: bs, (mb, mw, tot) =>
+    let t := getTree ts pos
+    lensRun skip (ts.set pos (splay t b.toNat)) ((pos + 1) % skip) bs
+      (max mb (codeBits t b.toNat), max mw (codeWords t b.toNat), tot + codeBits t b.toNat)
+
+/-- code-length figures of a fresh element with `skip_size = skip` fed with `bs` -/
+def codeLens (skip : Nat) (bs : List UInt8) : Nat × Nat × Nat := lensRun skip (initTrees skip) 0 bs (0, 0, 0)
+
 end H4.SkpHuff
